@@ -28,11 +28,9 @@ func (db *memoryDB) NewIterator(prefix []byte, start []byte) (database.Iterator,
 	var keys []string
 
 	// Collect all keys in the range [start, end)
+	prefixString := string(prefix)
 	for key := range db.data {
-		if !strings.HasPrefix(key, startString) {
-			continue
-		}
-		if strings.Compare(key, startString) >= 0 {
+		if strings.HasPrefix(key, prefixString) && key >= startString {
 			keys = append(keys, key)
 		}
 	}
